@@ -133,10 +133,10 @@ def write_scenarios(binf, tier, rng):
                     {"op": "wchunk", "w": 1, "data": b"cd".hex(), "mode": "write_all"}, {"op": "commit", "w": 1}],
                [0, 1, 2, 3], [K], b"abcd")
         yield (f"{fl} streamed by address, declared size, more data than declared",
-               [], [{"op": "open", "fl": fl, "w": 1, "size": 2, "algo": "xxh3"},
+               [], [{"op": "open", "fl": fl, "w": 1, "size": 3, "algo": "xxh3"},
                     {"op": "wchunk", "w": 1, "data": b"ab".hex(), "mode": "write_all"},
-                    {"op": "wchunk", "w": 1, "data": b"cd".hex(), "mode": "write_all"}, {"op": "commit", "w": 1}],
-               [1, 2, 3], [], b"abcd")
+                    {"op": "wchunk", "w": 1, "data": b"cde".hex(), "mode": "write_all"}, {"op": "commit", "w": 1}],
+               [1, 2, 3], [], b"abcde")
         yield (f"{fl} remove (tombstone)",
                [{"op": "open", "fl": "sync", "w": 9, "key": K, "time": "5"}, {"op": "wchunk", "w": 9, "data": D.hex(), "mode": "write_all"}, {"op": "commit", "w": 9},
                 {"op": "write", "fl": "sync", "key": K2, "data": b"x".hex(), "algo": "sha256"}],
@@ -154,6 +154,40 @@ def _small_write(c):
     return c.get("count") is not None and (c.get("count") or 0) <= 600
 
 # ------------------------------------------------------------------------------------------------ C03 / C04
+def suite_kill_under_fault(binf, tier, rng):
+    """C03 under a persistent environment fault: every rename fails (EXDEV, as across filesystems), so publishing the
+    content fails; the process is then killed on entry to every later mutating call (and data writes torn).  Incomplete
+    data must still never sit under a content address."""
+    out = {"runs": 0, "skipped": 0, "failures": [], "dist": {}}
+    K = kx("k")
+    big = bytes(range(256)) * 1200          # > one copy buffer
+    fls = ["sync"] if binf == "sync" else ["async"]
+    T.EXTRA_INJECT[:] = ["rename,renameat,renameat2:error=EXDEV"]
+    try:
+        for fl in fls:
+            for name, ops in ((f"{fl} one-shot write, renames fail", [{"op": "write", "fl": fl, "key": K, "data": b"hello".hex(), "algo": "sha256"}]),
+                              (f"{fl} write_hash 300 KiB, renames fail", [{"op": "write_hash", "fl": fl, "data": big.hex(), "algo": "sha1"}])):
+                def after(cache, ext, C):
+                    return {"content_bad": content_oracle(cache)}
+                sel = lambda c: c["mutating"] and not c["name"].startswith("rename")
+                try:
+                    res = T.kill_sweep(binf, make_state_fn(binf, []), ops, 0, after=after, torn=[1, 2, 4096], select=sel, jobs=8)
+                except T.TraceError as ex:
+                    # the fault-free-of-kills run must at least answer (an error): otherwise nothing to sweep
+                    out["dist"]["baseline:" + str(ex)[:60]] = 1
+                    continue
+                for r in res:
+                    out["runs"] += 1
+                    if not r["ok"]:
+                        out["skipped"] += 1; continue
+                    out["dist"][r["call"]["name"]] = out["dist"].get(r["call"]["name"], 0) + 1
+                    if r["after"]["content_bad"]:
+                        out["failures"].append({"concrete": True, "text": f"{name} / kill before {T.brief(r['call'])[:80]}: {r['after']['content_bad'][0]}",
+                                                "replay": {"scenario": name, "flavour": binf, "ops": ops, "environment": list(T.EXTRA_INJECT), "kill_before": T.brief(r["call"]), "torn": r.get("torn")}})
+    finally:
+        T.EXTRA_INJECT[:] = []
+    return out
+
 def suite_kill(binf, tier, rng, which):
     """which = "C03" (content oracle + model membership at every kill point / torn temp write) or
        "C04" (old-or-new lookups, other keys, content present when new, continuation, index append torn at every length)"""
@@ -190,6 +224,12 @@ def suite_kill(binf, tier, rng, which):
                 r = {"tree": O.dump_real(cache, ext), "content_bad": content_oracle(cache)}
                 if which == "C04":
                     r["look"] = lookups(_binf, cache, ext, _keys)
+                    if _binf != "sync":
+                        # the same lookups through the async entry points must agree (C12) — a restart may use either
+                        la = lookups(_binf, cache, ext, _keys, fl="async")
+                        if {k: strip_time(v) if isinstance(v, tuple) and v[:2] == ("ok", "meta") else v for k, v in la.items() if k != "list"} != \
+                           {k: strip_time(v) if isinstance(v, tuple) and v[:2] == ("ok", "meta") else v for k, v in r["look"].items() if k != "list"}:
+                            r["async_differs"] = {str(k): str(v)[:120] for k, v in la.items() if k != "list" and v != r["look"].get(k)}
                     # the cache stays usable: a later write to the same key succeeds and is visible
                     ip = ImplProc(_binf, cache, ext)
                     try:
@@ -234,6 +274,8 @@ def suite_kill(binf, tier, rng, which):
 
 def _c04_oracle(a, before, after_ref, keys, data):
     look = a["look"]
+    if a.get("async_differs"):
+        return f"after the crash the async lookups differ from the sync ones: {a['async_differs']}"
     k0 = keys[0]
     old, new = strip_time(before[("meta", k0)]), strip_time(after_ref[("meta", k0)])
     got = strip_time(look[("meta", k0)])
